@@ -8,6 +8,26 @@
 # rule: how cases are generated and what makes one non-trivial / distinct (copied into evidence)
 
 PROPS = {
+    "C18": {
+        "level": "exploration",
+        "rule": "TestC18Concurrent: 2..8 (thorough 16) goroutines each run a rapid-generated list of 3..14 cache calls (new bug, comment / "
+                "title / open / close / label on shared and own bugs, CommitAsNeeded, resolve, query, ValidLabels, snapshot) with "
+                "generated Gosched yields, GOMAXPROCS in {1,2,4,16}, handles either re-resolved for every call or kept across calls. "
+                "Oracle once all workers returned and everything is committed: every operation whose call returned success is stored "
+                "exactly once in its bug (read from git through a fresh repository handle), nothing else is stored, every bug reads "
+                "back and validates, no worker panicked, the live cache equals a rebuild (C11 comparator); a 60 s watchdog on a "
+                "workload that takes well under 3 s reports workers parked on mutexes as a deadlock. A fatal runtime error (concurrent "
+                "map access) kills the process and is reported by the driver as a crash inside git-bug. TestC18Eviction: a handle "
+                "resolved before its entity is evicted (cache size 1 and 2) must not block forever. The thorough tier repeats the run "
+                "under the race detector (reports are information only). Non-trivial: >=2 workers touched the same shared bug. "
+                "Distinct: workers x GOMAXPROCS x handle mode x shared bugs x call-count multiset (schedule classes, not interleavings).",
+        "assumptions": ["the harness does not own the Go scheduler: outcomes are checked for the interleavings the runtime happens to produce",
+                        "race-detector reports alone are not violations (the property states outcomes)",
+                        "cache sizes that force eviction are exercised only by TestC18Eviction because of the known finding it reports"],
+        "tests": [{"name": "TestC18Concurrent", "quick": 100, "shards_quick": 4, "thorough": 500, "shards": 12, "race": True},
+                  {"name": "TestC18Hammer", "quick": 6, "shards_quick": 3, "thorough": 40, "shards": 8, "race": True},
+                  {"name": "TestC18Eviction", "quick": None, "thorough": None}],
+    },
     "C17": {
         "level": "exploration",
         "rule": "The mutation list and every input type are DISCOVERED by introspection of the served schema on each run; rapid "
@@ -305,6 +325,13 @@ PROPS = {
 
 # Text for MANIFEST.json, per claimed property.
 MANIFEST_TEXT = {
+    "C18": {
+        "technique": "property-based concurrency testing (rapid-generated multi-goroutine workloads, varied GOMAXPROCS and yields) with an acknowledged-operations oracle, deadlock watchdog and rebuild differential",
+        "level_text": "Generated concurrent workloads against one live cache; the oracle compares acknowledged operations with what git holds "
+                      "and the cache with a rebuild. Exploration of schedules the Go runtime produces; weak by nature (see DESIGN §5).",
+        "design_ref": "DESIGN.md §4 C18, §5",
+        "level_note": "Trusted: nothing about absent interleavings; a pass means no lost/duplicated acknowledged operation in the schedules met.",
+    },
     "C17": {
         "technique": "property-based testing (rapid) of the served GraphQL API: schema introspection drives the request generator; frame-condition and recorded-change oracles read git independently",
         "level_text": "Requests are generated from the introspected schema and sent with and without an authenticated user; the repository "
